@@ -42,7 +42,7 @@ MANIFEST = {
 }
 BUDGET = {"quick": (700, 75), "thorough": (40000, 1500)}
 REQUIRED_PROBES = {"quick": ["parallel_runs", "stale_parent_planted", "sparse_parent"],
-                   "thorough": ["parallel_runs", "stale_parent_planted", "sparse_parent", "merged_all_undefined", "with_filter"]}
+                   "thorough": ["parallel_runs", "stale_parent_planted", "sparse_parent", "merged_all_undefined", "with_filter", "deep_cascade"]}
 CHUNK = 6
 SELFTEST_EVERY = 25
 
@@ -292,7 +292,19 @@ def run_core(ch, env, prop):
     scheme = ("L/Y/YX", "LXY")[ch.draw(2, p0=0.75, kind="scheme")]
     rng = np.random.RandomState(seed)
     leaves = {}
-    allpos = [Pos(start, x, y) for y in range(2 ** start) for x in range(2 ** start)]
+    # one run in twelve cascades a deep, almost empty pyramid (start level 9-11: level-dependent code paths, large tile
+    # indices) through a TOAST filter that accepts the populated paths
+    deep = ch.draw(12, kind="deep_cascade") == 11
+    if deep:
+        start = (10, 11, 9)[ch.draw(3, kind="deep_start")]
+        use_filter = True
+        p_pop = 1.0
+        x0, y0 = ch.draw(2 ** start, kind="deep_x"), ch.draw(2 ** start, kind="deep_y")
+        cand = [Pos(start, x0, y0), Pos(start, x0 ^ 1, y0), Pos(start, x0, y0 ^ 1), Pos(start, (x0 + 2) % 2 ** start, y0),
+                Pos(start, (x0 + 37) % 2 ** start, (y0 + 511) % 2 ** start)]
+        allpos = cand[:1 + ch.draw(5, kind="deep_nleaves")]
+    else:
+        allpos = [Pos(start, x, y) for y in range(2 ** start) for x in range(2 ** start)]
     nstyles = 5
     for p in allpos:
         if ch.draw(2, p0=p_pop, kind="leaf_populated") == 0:
@@ -331,13 +343,10 @@ def run_core(ch, env, prop):
     n_stale = 0
     have = set(leaves) | set(ref)
     stale_positions = []
-    for level in range(start - 1, -1, -1):
-        for x in range(2 ** level):
-            for y in range(2 ** level):
-                pp = Pos(level, x, y)
-                if any(c in have for c in pos_children(pp)):
-                    if ch.draw(2, p0=0.75, kind="stale") == 1:
-                        stale_positions.append(pp)
+    parent_cands = sorted({Pos(c.n - 1, c.x >> 1, c.y >> 1) for c in have if c.n >= 1}, key=lambda q: (-q.n, q.x, q.y))
+    for pp in parent_cands:
+        if ch.draw(2, p0=0.75, kind="stale") == 1:
+            stale_positions.append(pp)
     for pp in stale_positions:
         junk = gen_leaf(np.random.RandomState(7), "RGBA" if (fmt == "png" or (fmt == "npy" and mode in ("RGB", "RGBA"))) else mode, 0, (1, 2, 3) if fmt == "jpg" else None)
         if fmt == "jpg":
@@ -353,9 +362,15 @@ def run_core(ch, env, prop):
             while q.n >= 1:
                 must.add(q)
                 q = Pos(q.n - 1, q.x >> 1, q.y >> 1)
-        for p in common.all_positions_dfs(start, lo=1):
-            if p not in must and ch.draw(2, kind="filter_extra") == 1:
-                accepted_extra.add(p)
+        if deep:
+            for q in sorted(must, key=tuple):
+                if ch.draw(4, kind="filter_extra") == 3:
+                    accepted_extra.add(Pos(q.n, q.x ^ 1, q.y))      # accepted, nothing beneath it
+            accepted_extra -= must
+        else:
+            for p in common.all_positions_dfs(start, lo=1):
+                if p not in must and ch.draw(2, kind="filter_extra") == 1:
+                    accepted_extra.add(p)
         acc = must | accepted_extra
         tile_filter = lambda t: t.pos in acc  # noqa: E731
 
@@ -366,8 +381,8 @@ def run_core(ch, env, prop):
            "extra": {"combo_%s_%s" % (fmt, mode): 1, "workers_%d" % workers: 1, "start_%d" % start: 1},
            "probes": {"stale_parent_planted": n_stale, "sparse_parent": int(sparse), "with_filter": int(use_filter),
                       "parallel_runs": int(workers > 1),
-                      "merged_all_undefined": int(any(any(c in have for c in pos_children(Pos(l, x, y))) and Pos(l, x, y) not in ref
-                                                  for l in range(start) for x in range(2 ** l) for y in range(2 ** l)))}}
+                      "deep_cascade": int(deep),
+                      "merged_all_undefined": int(any(pp not in ref for pp in parent_cands))}}
 
     sim = Sim(ch, step_cap=60000)
     sim.rootdir = d
